@@ -208,6 +208,31 @@ CLAIMED["C15"] = dict(
 PENDING_REASON = "check not built yet in this round (model/theorems in progress; see DESIGN.md section 11 for the order of work)"
 
 
+def level_text(pid, fallback):
+    """The claim of a check is kept in one place, next to its generator and oracle (tools/props.py: `strength` = what is proved,
+    `rule` = what the correspondence runs on every change); the table above only supplies category, trusted base and technique."""
+    import sys
+    sys.path.insert(0, os.path.join(V, "tools"))
+    sys.path.insert(0, os.path.join(V, "gen"))
+    try:
+        import props as P
+        c = P.REGISTRY[pid]
+        return "Theorems: " + c.strength + " Tie to /repo on every run (differential, not proof): " + c.rule
+    except Exception:
+        return fallback
+
+
+TECHNIQUE = {
+    "C03": "Coq proof (both section walks, the question cursor and the option cursor return the declarative reading of the packet: induction over the record chain) + correspondence with reference-decoder oracle",
+    "C04": "Coq proof (bit-vector identities; question getters and EDNS summary = declarative decoding) + correspondence with reference-decoder oracle over all flag words",
+    "C05": "Coq proof (decompression = canonical pointer-free encoding of the unique declarative reading; re-acceptance via the completeness theorem of C02; fixed point; boundary translation) + correspondence with canonical-encoder oracle",
+    "C09": "Coq model with splice/frame lemmas and the message-level effect of the TTL setter under an explicit footprint hypothesis (proof, with a refutation witness without it) + abstract-message refinement oracle over operation sequences",
+    "C10": "Coq proof (size bound, atomicity of the insertion core, failed insert keeps the message via the C05 round trip) + error-provoking histories with before/after oracle",
+    "C13": "Coq proof (totality of the grammar model; every returned record is well-formed; builder data characterised) + correspondence with independent RFC 1035 encoder",
+    "C14": "Coq proof (text -> wire label-by-label specification in both directions, rejections, round trip through the wire reader) + exhaustive short-name correspondence with independent splitter",
+}
+
+
 def main():
     props = [json.loads(l)["id"] for l in open(os.path.join(V, "properties.jsonl"))]
     try:
@@ -225,9 +250,9 @@ def main():
                 "evidence_file": "evidence/%s.json" % p,
                 "replay_cmd_template": "python3 tools/check.py %s --replay {path}" % p,
                 "engine": "coq-model+correspondence",
-                "level_claimed": {"category": c["category"], "text": c["text"], "design_ref": c["ref"]},
+                "level_claimed": {"category": c["category"], "text": level_text(p, c["text"]), "design_ref": c["ref"]},
                 "level_note": c["note"],
-                "technique": c["technique"],
+                "technique": TECHNIQUE.get(p, c["technique"]),
             })
     m = {
         "version": 1,
